@@ -1,6 +1,7 @@
 package main
 
 import (
+	"os/exec"
 	"crypto/sha1"
 	"encoding/json"
 	"fmt"
@@ -152,6 +153,18 @@ func RunCheck(opts CheckOpts) int {
 	eng, err := LoadEngine(opts.Repo)
 	if err != nil {
 		fmt.Fprintln(os.Stderr, "govc: cannot load", opts.Repo+":", err)
+		// If the package builds without the hooks but not with them, the contracts / ghost functions name something
+		// the code no longer has: the same situation as a contract that does not resolve — a failed obligation.
+		cmd := exec.Command("go", "build", "./...")
+		cmd.Dir = opts.Repo
+		cmd.Env = append(os.Environ(), "GOFLAGS=-mod=mod", "GOPROXY=off", "GOSUMDB=off", "GOTOOLCHAIN=local")
+		if out, berr := cmd.CombinedOutput(); berr == nil {
+			fmt.Printf("VIOLATION property=%s replay=%s contract-resolution-failed hooks-do-not-build-against-this-source no-failing-input-found\n", opts.Prop,
+				writeNote(opts, "contract-resolution", "the package builds without -tags verif but not with it:\n"+err.Error()))
+			return 1
+		} else {
+			fmt.Fprintln(os.Stderr, "govc: the repository does not build:", string(out))
+		}
 		return 2
 	}
 	for _, le := range eng.loadErrs {
